@@ -5,7 +5,6 @@ import (
 	"go/constant"
 	"go/token"
 	"go/types"
-	"sort"
 	"strings"
 
 	"golang.org/x/tools/go/ssa"
@@ -307,22 +306,23 @@ func pathDepth(v ssa.Value, d int) string {
 	case *ssa.BinOp:
 		return "(" + pathDepth(x.X, d+1) + " " + x.Op.String() + " " + pathDepth(x.Y, d+1) + ")"
 	case *ssa.Phi:
-		set := map[string]bool{}
+		// a phi whose (non-self) operands are all the same value is that value; any other phi is named by identity
+		var only ssa.Value
+		same := true
 		for _, e := range x.Edges {
 			if e == v {
 				continue
 			}
-			set[pathDepth(e, d+3)] = true
+			if only == nil {
+				only = e
+			} else if only != e {
+				same = false
+			}
 		}
-		var keys []string
-		for k := range set {
-			keys = append(keys, k)
+		if same && only != nil {
+			return pathDepth(only, d+1)
 		}
-		sort.Strings(keys)
-		if len(keys) == 1 {
-			return keys[0]
-		}
-		return "phi{" + strings.Join(keys, "|") + "}"
+		return "phi@" + posKey(x)
 	case *ssa.Call:
 		c := x.Common()
 		name := CallName(c)
